@@ -7,3 +7,5 @@ import LettreVerif.Props.C12
 #print axioms LV.C12.mailbox_header_read_back
 #print axioms LV.C12.file_name_roundtrip
 #print axioms LV.C12.attachment_and_inline_file_names
+#print axioms LV.C12.unstructured_roundtrip_every_string
+#print axioms LV.C12.display_name_roundtrip_every_string
